@@ -6,7 +6,7 @@
    (Maven's rules R1-R9, independent of the model).  XML decoding is outside the model; the real
    Maven binary is tied only through the transcribed specification. *)
 From DepsDev Require Import Lib.Base Gen.PomTables Maven.Pom Maven.Interp Maven.Project Maven.Witnesses.
-From DepsDev Require Maven.Interp_proofs Maven.Project_proofs Maven.Pipeline_proofs.
+From DepsDev Require Maven.Interp_proofs Maven.Project_proofs Maven.Imports_proofs Maven.Pipeline_proofs.
 From DepsDev Require Spec.MavenModelSpec.
 
 (* ================= termination clause: ALL property tables, ALL strings ================= *)
@@ -132,6 +132,25 @@ Theorem C15_import_cap_suffices : forall get n queue imported m k,
   forall n', (n <= n')%nat -> import_loop get n' queue imported m = import_loop get n queue imported m.
 Proof. exact Project_proofs.import_loop_cap. Qed.
 Print Assumptions C15_import_cap_suffices.
+
+(* R7, PARTIAL: the imports of a project as a forest (a node: an import-scoped entry, what
+   fetching it returns, the nodes of the import-scoped entries among that).  When no two imports
+   have the same (group, artifact, type, classifier), every import has type pom and can be
+   fetched, and there are at most MaxImports of them, the managed list ProcessDependencies
+   returns is Maven's: own entries, then the effective management of every import in order,
+   depth first, the first entry of an identity winning; and the dependencies are the deduped
+   ones with Maven's injection from that list.  Missing for the full statement: imports that
+   repeat coordinates (refuted below, F-C15-3), imports that fail (Maven: error, Go: skipped). *)
+Theorem C15_import_order_partial : forall get (p : project) (F : list Imports_proofs.itree),
+  map Imports_proofs.root F = Imports_proofs.imps_of (p_mgmt p) ->
+  (Imports_proofs.fsize F <= max_imports)%nat -> Imports_proofs.wf_all get F ->
+  NoDup (flat_map Imports_proofs.keys F) ->
+  let managed := map MavenModelSpec.with_type
+                     (MavenModelSpec.first_wins (Imports_proofs.own_of (p_mgmt p)
+                                                 ++ flat_map Imports_proofs.managed_of F)) in
+  process_dependencies get p = Ok (map (fill_in managed) (dedupe_into [] (p_deps p)), managed).
+Proof. exact Imports_proofs.process_dependencies_managed. Qed.
+Print Assumptions C15_import_order_partial.
 
 (* the order of the pipeline steps read from the sources on this run (mergeParents of the
    example program, fetchMavenParents of util/resolve) is the order the model implements *)
